@@ -1,6 +1,7 @@
 package rules
 
 import (
+	"strings"
 	"go/token"
 
 	"golang.org/x/tools/go/ssa"
@@ -144,4 +145,80 @@ func c34(x *Ctx) {
 		c.Decide(sawSelect && !bad, r2, BaseName(f)+"/completeSend", x.Pos(s.Instr), "pending usage cleared only after the sent-channel fired", "completeSend is reachable when the context was cancelled (or without waiting for the send confirmation): usage is dropped although the report may not have been delivered")
 	}
 	c.Min(r2, 1)
+
+	// ---- pending usage is cleared only after a send that succeeded ---------------------------------------------------
+	// (from a SendCustomMessage call that returned an error, completeSend is only reachable through another send)
+	const r3 = "C34.complete-only-after-success"
+	const nSendMsg = "SendCustomMessage"
+	for _, s := range eng.CallSites(funcs, func(nm string, _ ssa.CallInstruction) bool { return nm == "(*agent.usageTracker).completeSend" }) {
+		f := s.Fn
+		var sends []ssa.Instruction
+		eng.Instrs(f, func(in ssa.Instruction) {
+			if cl, ok := in.(ssa.CallInstruction); ok && strings.HasSuffix(eng.CalleeName(cl), ")."+nSendMsg) {
+				sends = append(sends, in)
+			}
+		})
+		for i, snd := range sends {
+			c.Examined++
+			errs := extractOf(snd.(ssa.CallInstruction), 1)
+			as := &eng.Assume{Nil: func(v ssa.Value) eng.Tri {
+				for _, e := range errs {
+					if v == e {
+						return eng.False // this send failed
+					}
+				}
+				return eng.Unknown
+			}}
+			r := eng.Explore(eng.Query{Fn: f, Assume: as, Start: snd, TrackPhi: func(*ssa.Phi) bool { return true }, Classify: func(in ssa.Instruction, _ eng.Facts) eng.Event {
+				for _, other := range sends {
+					if in == other {
+						return eng.EvKill // another attempt: judged on its own
+					}
+				}
+				if in == s.Instr {
+					return eng.EvSink
+				}
+				return eng.EvNone
+			}})
+			key := sprintf("%s/send#%d", BaseName(f), i+1)
+			if len(r.Hits) > 0 {
+				o := c.Violate(r3, key, x.Pos(snd), "after this SendCustomMessage call returned an error (e.g. another message still pending) completeSend can be reached without another send: the usage is cleared although the report was never handed to the client")
+				o.Path = eng.DescribePath(x.P.Pos, r.Hits[0].Path)
+			} else {
+				c.Hold(r3, key, x.Pos(snd), "a failed send never leads to completeSend except through a new attempt")
+			}
+		}
+	}
+	c.Min(r3, 1)
+
+	// ---- each usage value lands in a data point of its own metric ----------------------------------------------------------
+	const r4 = "C34.point-belongs-to-metric"
+	if ao := x.P.Func("agent", "otlpMetrics", "addOTLPSum"); ao != nil && ao.Blocks != nil {
+		n := 0
+		eng.Instrs(ao, func(in ssa.Instruction) {
+			cl, ok := in.(ssa.CallInstruction)
+			if !ok || !strings.HasSuffix(eng.CalleeName(cl), "NumberDataPoint).SetIntValue") {
+				return
+			}
+			n++
+			c.Examined++
+			fresh := func(v ssa.Value) bool {
+				ap, ok := v.(*ssa.Call)
+				if !ok || !strings.HasSuffix(eng.CalleeName(ap), ").AppendEmpty") {
+					return false
+				}
+				// …of the data points of the sum for this mapping's metric name
+				_, d := eng.Derives(eng.Receiver(ap), func(w ssa.Value) bool {
+					gc, ok := w.(*ssa.Call)
+					return ok && strings.HasSuffix(eng.CalleeName(gc), ").getOrCreateSum")
+				}, eng.FlowOpts{ThroughCalls: true})
+				return d
+			}
+			c.Decide(x.mustDerive(eng.Receiver(cl), fresh), r4, "addOTLPSum/SetIntValue", x.Pos(in), "the value is written to a new point of the sum for the mapping's metric",
+				"a usage value can be written into a data point that was not appended to the sum of its own metric in this call (a point remembered under another key): two metrics that share an attribute value are merged – one is over-reported, the other never reported")
+		})
+		if n == 0 {
+			c.Undecided(r4, "addOTLPSum", x.PosOf(ao.Pos()), "cannot find where the usage value is written")
+		}
+	}
 }
